@@ -57,7 +57,7 @@ __CPROVER_requires(__CPROVER_is_fresh(self, sizeof(struct SIAD)) && __CPROVER_is
 #ifdef ATTR_NC   /* the job fixes the component count: every size product in the function and in the stubs is then a multiplication by a constant */
 __CPROVER_requires(ATTR_NC > 0 ? self->num_value_components == ATTR_NC : self->num_value_components <= 0)
 #endif
-__CPROVER_requires(point_ids->size <= SIAD_MAXVALS / 16)
+__CPROVER_requires(point_ids->size <= SIAD_MAXVALS / 32)   /* the tiles go up to 32 components: entries * components stays inside the size model */
 __CPROVER_ensures(DB_INV(in_buffer) && in_buffer->pos_ >= __CPROVER_old(in_buffer->pos_))
 __CPROVER_ensures(!__CPROVER_return_value || self->num_value_components >= 1)
 __CPROVER_ensures(!__CPROVER_return_value || (self->port_entries == (int)point_ids->size && self->port_components == self->num_value_components))
